@@ -311,6 +311,13 @@ def r2_positional_picks(ctx):
                         it = astx.unique_def(f.node, astx.u(lp.iter)) if isinstance(lp.iter, ast.Name) else lp.iter
                         if it is not None and astx.u(it).endswith(".remaining"):
                             proof = "picked member is used only to look up the score shared by its equal-score group"
+                # ... the same with the pick written where it is used:  <state>.scores[list(s)[0]]
+                par = pm.get(node)
+                lp = astx.enclosing(node, pm, ast.For)
+                if proof is None and isinstance(par, ast.Subscript) and par.slice is node and astx.u(par.value).endswith(".scores") and lp is not None and astx.u(lp.target) == astx.u(S):
+                    it = astx.unique_def(f.node, astx.u(lp.iter)) if isinstance(lp.iter, ast.Name) else lp.iter
+                    if it is not None and astx.u(it).endswith(".remaining"):
+                        proof = "picked member is used only to look up the score shared by its equal-score group"
             if proof:
                 ctx.ok(f, node, f"{f.short}: pick `{astx.u(node)[:40]}` is order-independent", proof)
             else:
